@@ -34,8 +34,8 @@ CHECKS = {
     "C06": dict(cat="proof", tech="Coq: naturality of the semantics (any program) + equivariance by uniqueness, C16_direct, C17; tied by correspondence k_implicit (implicit vs explicit embedded), k_greens, k_projector; partial",
                 text="C06_embedding_partial / C06_outputs_correspond_partial: any structure-preserving map between BlockAlgs intertwining the scopes maps solutions of the generated programs to solutions and (Hermitian mode) the three outputs correspond; with C16_direct (solver) and C17 (projector). C06_implicit_algebra / C06_implicit_similarity / C06_corner_outputs_correspond: the corner e T e (e = diag(1,P)) of a BlockAlg is a BlockAlg with product x e y and unit e, so C01/C02 hold for the implicit computation itself, and phi x = J x J^dagger (J = diag(1,Psi_B) a partial isometry) is a least-action morphism between the explicit and the implicit corner: outputs correspond. Partial: that the concrete matrices diag(1,P), diag(1,Psi_B) satisfy the corner equations in the algebra of series of matrices is assumed (checked numerically by k_implicit); non-Hermitian correspondence by harness; KPM accuracy monitored only. Known finding C06-nh-implicit-fully-diagonalize (IndexError) replayed each run.",
                 note=BASE_NOTE + "SuperLU/MUMPS and KPM results compared numerically (1e-9*scale, 100*atol)."),
-    "C07": dict(cat="proof", tech="Coq: generic C01-C03 theorems + C08 (NOF homomorphism) + C16_scalar + C07_mask laws; decided on the implementation by the Fock-space oracle o_fock (operator-valued result vs truncated matrices); partial",
-                text="C07_mask_* (apply_mask_to_operator is an additive idempotent selection, keep/eliminate partition, commutes with adjoint and with functions of number operators), C08_* and C16_scalar on the NumberOrderedForm model, and the generic theorems C01/C02 for any BlockAlg. Partial: the BlockAlg instance over number-ordered forms and the band-locality argument (equality with TRUNCATED matrices away from the edge) are not formalised; that clause is decided by the oracle (Jordan-Wigner + Fock truncation, U†U=1 and U†HU=H_tilde on interior states).",
+    "C07": dict(cat="proof", tech="Coq: C01-C03 instantiated at the BlockAlg of series of infinite row/column-finite matrices (C07_fock) + C08 (NOF homomorphism) + C16_scalar + C07_mask laws; decided on the implementation by the Fock-space oracle o_fock (operator-valued result vs truncated matrices); partial",
+                text="C07_mask_* (apply_mask_to_operator is an additive idempotent selection, keep/eliminate partition, commutes with adjoint and with functions of number operators), C08_* and C16_scalar on the NumberOrderedForm model, and the generic theorems C01/C02 for any BlockAlg. C07_fock_kept/_eliminated/_unitary/_adjoint/_gauge (Props/C07_fock.v): the series of infinite row- and column-finite matrices on a countable Fock basis form a BlockAlg wired by the diagonal solver on a number-conserving H_0 (non-degenerate coupled levels), so U†HU = H_tilde, U†U = 1 and the least-action gauge hold for operators on Fock space themselves. Partial: assembling the C08 denotations of number-ordered forms into that algebra with Sel = apply_mask is by the ties, and the band-locality argument (equality with TRUNCATED matrices away from the edge) is not formalised; that clause is decided by the oracle (Jordan-Wigner + Fock truncation incl. spin modes, operator-valued masks, matrix-valued Hamiltonians; U†U=1 and U†HU=H_tilde on interior states).",
                 note=BASE_NOTE + "sympy simplification assumed to preserve denotations."),
     "C08": dict(cat="proof", tech="Coq theorems on a hand model of NumberOrderedForm (Fock-space denotation with Jordan-Wigner signs) tied by correspondence k_nof (term dictionaries on occupation grids, vm_compute) + independent matrix oracle",
                 text="17 theorems, unbounded in occupation numbers, powers and number of modes: _multiply_op (all four branches incl. the fermionic sign counting), _multiply_expr, __mul__, +, -, adjoint (weighted inner product), integer powers denote the corresponding operators; associativity and distributivity as equalities of denotations; C08_dagger_mul ((xy)† = y†x† on matrix elements between physical Fock states); C08_from_expr / C08_as_expr / C08_roundtrip (conversion from and to expressions denotes the same operator, from_expr(as_expr x) never raises); C08_pow_neg (negative powers of number-only forms are inverses where the coefficient does not vanish). Negative powers of forms with unpaired operators raise in the code and are outside the property; as_expr theorem for coefficients without reciprocals.",
